@@ -47,10 +47,14 @@ def build_harness():
     if not os.path.exists(lock):
         shutil.copy(os.path.join(REPO, "Cargo.lock"), lock)
     env = dict(os.environ, CARGO_NET_OFFLINE="true")
-    # path dependencies in Cargo.toml point at /repo; honour VERIF_REPO
+    # path dependencies in Cargo.toml point at /repo; VERIF_REPO (background runs on a snapshot
+    # of the repository, never the registered commands) rewrites them in that snapshot's copy
     cfg = []
     if REPO != "/repo":
-        cfg = ["--config", 'patch."/repo/rustemo".rustemo.path="%s/rustemo"' % REPO]
+        ct = os.path.join(HARNESS, "Cargo.toml")
+        txt = open(ct).read()
+        if '"/repo/' in txt:
+            open(ct, "w").write(txt.replace('"/repo/', '"%s/' % REPO))
     r = subprocess.run(["cargo", "build", "--offline", "--bins"] + cfg, cwd=HARNESS, env=env,
                        capture_output=True, text=True)
     if r.returncode != 0:
